@@ -181,12 +181,15 @@ PROPS = {
                     "the liveness bit-set helpers set_local / clear_local / contains_local / word_count verified by Verus over the abstract member() view with a whole-view frame, "
                     "opt::stmt_effective_class (Impure on an unavailable summary, otherwise joined with every callee's TRANSITIVE class), "
                     "note_max_reference / declaration_is_runtime_removable, OptimizationPlan membership on sorted vectors, and the runtime "
-                    "gate Runtime::stmt_is_pruned / function_is_pruned (exactly plan membership; nothing without a plan)."),
+                    "gate Runtime::stmt_is_pruned / function_is_pruned (exactly plan membership; nothing without a plan).  CFG (Verus, unit cfg_loop: the "
+                    "Stmt::Loop arm of FunctionBuilder::lower_stmt cut from src/analysis/cfg.rs): the lowered loop has the shape the language "
+                    "defines -- pre -> cond, cond branches to a fresh body entry or a fresh exit, the body is lowered with comot -> exit and "
+                    "next -> cond, the body tail goes back to cond, lowering continues in exit."),
         "not_covered": ("soundness of the dataflow itself with respect to execution: liveness fix-point, compute_block_facts, summary "
-                        "propagation (summarize_component), CFG lowering and kills, compute_max_local_reference_stmt and "
+                        "propagation (summarize_component), CFG lowering of the other statements and scope kills, compute_max_local_reference_stmt and "
                         "build_optimization_plan's loops (arena-resident tables do not terminate in CBMC). Two genuine liveness defects "
                         "found by a seeding sub-agent on the unmodified tree are outside these contracts (DESIGN.md section 6)."),
-        "trusted_base": [KANI_TRUST, OS_TRUST],
+        "trusted_base": [KANI_TRUST, VERUS_TRUST, OS_TRUST],
     },
     "C04": {
         "level": "other",
